@@ -24,9 +24,11 @@ RULE = ("a case is a simulated history (generated script with several streams, `
 PARTIAL = [
     "process-level sources (RandomState seeds, allocator addresses, thread-locals) cannot be expressed by a theorem over a Gallina function: "
     "they are covered by the re-executions in fresh and reused processes, i.e. by sampling",
-    "C20_order_irrelevant_partial assumes that the context the farewell step starts in has unique stream names and stream values at pairwise "
-    "different trace positions (streams_ok); that every context reachable by exec satisfies it is an invariant that is not proved "
-    "(C20_full stays a Definition; C20_finish_needs_disjoint shows the hypothesis cannot simply be dropped)",
+    "C20_order_irrelevant_partial carries the hypothesis streams_ok (unique stream names, stream values at pairwise different trace positions "
+    "in the context the farewell step starts in; C20_finish_needs_disjoint shows it cannot simply be dropped for an arbitrary context). It is now "
+    "discharged for every run of the executor model: C20_streams_ok_run (from the stream-position invariant C02_stream_pos_inv, "
+    "proofs/StreamPosProofs.v) and C20_order_irrelevant_run2 = C20_full_holds state the run without it. Remaining gap: the invariant is proved "
+    "for the executor MODEL; its agreement with the Rust executor is the sampled lock-step correspondence",
     "the order parameters of run_det are o_streams, o_stream_maps (ExecStreams.finish_streams = Streams::compactify then StreamMaps::compactify) "
     "and o_next; the canon-map rendering order and the verifier's six orders are shown irrelevant / relevant by their own theorems "
     "(C20_canon_map_order / C20_canon_map_refuted, C20_verifier_order) and are not parameters of run_det",
@@ -43,7 +45,6 @@ ASSUMPTIONS = [
     "the catalogue (tools/genx_det.py) is a regex-level scan: hash containers reached only through a type the scan does not see as one are not listed; "
     "its classification in model/DetSpec.v is by reading the code",
     "Debug rendering of String / i32 / CallServiceResult inside the 30000 message is modelled for printable ASCII only (other cases are skipped by check_case)",
-    "positions_disjoint: every stream value is appended together with its own Ap / Call trace state",
 ]
 
 HEADER = ("From Aqua Require Import Base Json JsonText Air Trace Handler Values Scalars Lens Exec RunExec ExecStreams DetSpec DetCases.\n"
